@@ -263,13 +263,194 @@ def runDlLine (r : Report) (sec : Nat) (l : Line) : Report :=
     | _, _, _ => r.mismatch sec l.idx "bad-op" (joinSp l.op)
   | _ => r.mismatch sec l.idx "bad-op" (joinSp l.op)
 
+/-! ### select skeletons (zRPC server interceptor, fx.DoWithTimeout) -/
+
+def parseWork (t : String) : Option Work :=
+  match t.splitOn ":" with
+  | ["ret", r, e] => do pure (.ret (← r.toNat?) (← e.toNat?))
+  | ["panic", v] => do pure (.panic (← v.toNat?))
+  | ["never"] => some .never
+  | _ => none
+
+def showKind : Kind → String
+  | .deadline => "deadline"
+  | .canceled => "cancel"
+
+def showOutcome : Outcome → String
+  | .result r e => s!"result:{r}:{e}"
+  | .timeout k => s!"timeout:{showKind k}"
+  | .panic v => s!"panic:{v}"
+
+def parseOutcome (t : String) : Option Outcome :=
+  match t.splitOn ":" with
+  | ["result", r, e] => do pure (.result (← r.toNat?) (← e.toNat?))
+  | ["timeout", "deadline"] => some (.timeout .deadline)
+  | ["timeout", "cancel"] => some (.timeout .canceled)
+  | ["panic", v] => do pure (.panic (← v.toNat?))
+  | _ => none
+
+/-- the worker runs as far as it can -/
+def workerRuns (stepf : SelSt → SelLabel → Option SelSt) (s : SelSt) : SelSt :=
+  iter 8 (fun s => (stepf s .w).getD s) s
+
+/-- the select takes the panic / done branch if it can -/
+def mainTakesWork (stepf : SelSt → SelLabel → Option SelSt) (s : SelSt) : SelSt :=
+  match stepf s .mPanic with
+  | some s' => s'
+  | none =>
+    match stepf s .mDone with
+    | some s1 => (match stepf s1 .mDoneLocked with | some s2 => s2 | none => s1)
+    | none => s
+
+def mainTakesTimeout (stepf : SelSt → SelLabel → Option SelSt) (s : SelSt) (k : Kind) : SelSt :=
+  let s1 := (stepf s (.env k)).getD s
+  (stepf s1 .mTimeout).getD s1
+
+def outStr (s : SelSt) : String :=
+  match s.out with
+  | some o => showOutcome o
+  | none => "blocked"
+
+def stepOf (wrapper : String) : Option (SelSt → SelLabel → Option SelSt) :=
+  if wrapper = "srv" then some srvStep else if wrapper = "fx" then some fxStep else none
+
+/-- is the context that ends the one the wrapper listens to?  (fx: the context of the *last* option) -/
+def expiryEffective (wrapper : String) (nopts fire : Nat) : Bool :=
+  if wrapper = "fx" then fxParent ((List.range nopts).map (fun (i : Nat) => some (Int.ofNat i))) == some (Int.ofNat fire)
+  else true
+
+def runSelLine (r : Report) (sec : Nat) (l : Line) : Report := Id.run do
+  let mut r := r
+  let parsed : Option (String × (SelSt → SelLabel → Option SelSt) × String × String × Work × Nat × Nat) :=
+    match l.op with
+    | ["sel", w, kind, at', work] => do pure (w, (← stepOf w), kind, at', (← parseWork work), 1, 0)
+    | ["sel", w, kind, at', work, n, f] => do pure (w, (← stepOf w), kind, at', (← parseWork work), (← n.toNat?), (← f.toNat?))
+    | _ => none
+  match parsed with
+  | none => return r.mismatch sec l.idx "bad-op" (joinSp l.op)
+  | some (w, stepf, kindTok, at', work, nopts, fire) =>
+    match parseKind kindTok with
+    | none => return r.mismatch sec l.idx "bad-op" (joinSp l.op)
+    | some kind =>
+      let eff := kind.isSome && (kindTok = "timer" || expiryEffective w nopts fire)
+      let s0 : SelSt := { work := work }
+      let impl := joinSp l.obs
+      let model : String :=
+        if at' = "before" && kind.isSome then
+          if eff then "out=" ++ outStr (mainTakesTimeout stepf s0 (kind.getD .deadline))
+          else
+            let s1 := mainTakesWork stepf (workerRuns stepf s0)
+            "out=blocked" ++ (if s1.out.isSome then " then=" ++ outStr s1 else "")
+        else
+          let s1 := mainTakesWork stepf (workerRuns stepf s0)
+          if s1.out.isSome then "out=" ++ outStr s1
+          else "out=blocked" ++ (if eff then " then=" ++ outStr (mainTakesTimeout stepf s1 (kind.getD .deadline)) else "")
+      r := r.addCover s!"sel-{w}-{kindTok}-{at'}" |>.addCover s!"sel-{w}-work-{(joinSp [toString (repr work)]).takeWhile (· != ' ')}"
+      if kind.isSome && !eff then r := r.addCover "fx-expiry-of-non-last-option-ignored"
+      if model ≠ impl then r := r.mismatch sec l.idx model impl
+      -- monitor on the implementation's observation
+      let last := (kv? l.obs "then").getD (obsOf l "out")
+      if obsOf l "out" = "stuck" || last = "stuck" then
+        r := r.violation sec l.idx s!"wrapper did not return at the deadline while the work ignored it: op=[{joinSp l.op}] impl=[{impl}]"
+      else if last = "blocked" then pure ()
+      else
+        match parseOutcome last with
+        | some o =>
+          let o' := match w, o with | "fx", .result _ e => Outcome.result (match work with | .ret r' _ => r' | _ => 0) e | _, o => o
+          for e in Spec.checkSel work (if eff then kind else none) o' do
+            r := r.violation sec l.idx s!"{e}: op=[{joinSp l.op}] impl=[{impl}]"
+        | none => r := r.violation sec l.idx s!"outcome is neither the work's result nor a timeout result: op=[{joinSp l.op}] impl=[{impl}]"
+      return r
+
+def runSelRaceLine (r : Report) (sec : Nat) (l : Line) : Report :=
+  match l.op with
+  | ["selrace", w, kindTok, _spin, workTok] =>
+    match stepOf w, parseKind kindTok, parseWork workTok with
+    | some stepf, some (some k), some work =>
+      let s0 : SelSt := { work := work }
+      let a := outStr (mainTakesTimeout stepf s0 k)
+      let s1 := mainTakesWork stepf (workerRuns stepf s0)
+      let cands := [a] ++ (if s1.out.isSome then [outStr s1] else [])
+      let impl := obsOf l "out"
+      let r := r.addCover (if impl = a then s!"selrace-{w}-timeout" else s!"selrace-{w}-work")
+      let r := if cands.contains impl then r else r.mismatch sec l.idx (" | ".intercalate cands) impl
+      match parseOutcome impl with
+      | some o =>
+        let o' := match w, o with | "fx", .result _ e => Outcome.result (match work with | .ret r' _ => r' | _ => 0) e | _, o => o
+        (Spec.checkSel work (some k) o').foldl (fun r e => r.violation sec l.idx s!"{e}: op=[{joinSp l.op}] impl=[{joinSp l.obs}]") r
+      | none => r.violation sec l.idx s!"outcome is neither the work's result nor a timeout result: op=[{joinSp l.op}] impl=[{joinSp l.obs}]"
+    | _, _, _ => r.mismatch sec l.idx "bad-op" (joinSp l.op)
+  | _ => r.mismatch sec l.idx "bad-op" (joinSp l.op)
+
+def msInt (s : String) : Option Int := s.toInt?
+
+def dlClassT (parent d : Deadline) (tMs : Int) : String :=
+  match d with
+  | none => "none"
+  | some x => if parent = some x then "parent" else s!"window@{tMs}"
+
+/-- monitor: the observed deadline class is no later than min(caller's, now + t) -/
+def dlViolates (impl : String) (parentMs : Option Int) (wraps : Bool) (tMs : Int) : Bool :=
+  if impl = "other" || impl = "late" then true
+  else if impl = "none" then wraps || parentMs.isSome
+  else if impl = "parent" then false
+  else match (impl.splitOn "@") with
+    | ["window", x] => match x.toInt? with
+      | some xm => !wraps || xm > tMs || (match parentMs with | some p => p < xm | none => false)
+      | none => true
+    | _ => true
+
+def runDlSelLine (r : Report) (sec : Nat) (l : Line) : Report :=
+  let ms (x : Int) : Int := x * 1000000
+  match l.op with
+  | "dl" :: "srv" :: p :: dflt :: method :: mts =>
+    let mts' := mts.mapM fun m => match m.splitOn ":" with
+      | [a, b] => do pure ((← a.toNat?), ms (← b.toInt?))
+      | _ => none
+    match parseParent p, dflt.toInt?, method.toNat?, mts' with
+    | some parent, some d, some m, some tbl =>
+      let t := srvTimeout (ms d) tbl m
+      let dl := srvDeadline (ms d) tbl m (parent.map ms) 0
+      let model := "dl=" ++ dlClassT (parent.map ms) dl (t / 1000000)
+      let impl := joinSp l.obs
+      let r := r.addCover (if t = ms d then "srv-default-timeout" else "srv-method-timeout")
+      let r := r.addCover ("srv-" ++ (model.splitOn "@").headD "")
+      let r := if model ≠ impl then r.mismatch sec l.idx model impl else r
+      if dlViolates (obsOf l "dl") parent true (t / 1000000) then
+        r.violation sec l.idx s!"deadline seen by the work is later than min(caller's deadline, now+timeout): op=[{joinSp l.op}] impl=[{impl}]"
+      else r
+    | _, _, _, _ => r.mismatch sec l.idx "bad-op" (joinSp l.op)
+  | "dl" :: "cli" :: p :: dflt :: e :: opts =>
+    let opts' := opts.mapM fun o => if o = "o" then some (none : Option Int) else
+      match o.splitOn ":" with
+      | ["t", b] => do pure (some (ms (← b.toInt?)))
+      | _ => none
+    match parseParent p, dflt.toInt?, e.toNat?, opts' with
+    | some parent, some d, some ev, some os =>
+      let t := cliTimeout (ms d) os
+      let dl := cliDeadline (ms d) os (parent.map ms) 0
+      let model := "dl=" ++ dlClassT (parent.map ms) dl (t / 1000000) ++ s!" err={ev}"
+      let impl := joinSp l.obs
+      let r := r.addCover (if cliWraps (ms d) os then (if t = ms d then "cli-default-timeout" else "cli-call-option-timeout") else "cli-pass-through")
+      let r := if model ≠ impl then r.mismatch sec l.idx model impl else r
+      let r := if dlViolates (obsOf l "dl") parent (cliWraps (ms d) os) (t / 1000000) then
+        r.violation sec l.idx s!"deadline seen by the work is later than min(caller's deadline, now+timeout): op=[{joinSp l.op}] impl=[{impl}]"
+      else r
+      if obsOf l "err" ≠ toString ev then
+        r.violation sec l.idx s!"the invoker's error did not reach the caller unchanged: op=[{joinSp l.op}] impl=[{impl}]"
+      else r
+    | _, _, _, _ => r.mismatch sec l.idx "bad-op" (joinSp l.op)
+  | _ => runDlLine r sec l
+
 def runSection (r : Report) (s : Section) : Report :=
   s.lines.foldl (fun r l =>
     let r := { r with ops := r.ops + 1 }
     match l.op.head? with
     | some "rest" => runRestLine r s.idx l true
     | some "race" => runRestLine r s.idx l false
-    | some "dl" => runDlLine r s.idx l
+    | some "dl" => runDlSelLine r s.idx l
+    | some "sel" => runSelLine r s.idx l
+    | some "selrace" => runSelRaceLine r s.idx l
     | _ => r.mismatch s.idx l.idx "bad-op" (joinSp l.op)) r
 
 def driver (secs : List Section) : Report := secs.foldl runSection {}
